@@ -32,7 +32,7 @@ Tr == ndJsonDeserialize(IOEnv.TRACE)
 FOf(c) == [enc |-> c.r, C |-> c.C, LM |-> c.LM, st |-> c.st, en |-> c.en, cb |-> c.cb, inten |-> c.inten, dual |-> c.dual,
            short |-> c.short, spread |-> c.spread, tf |-> c.tf, p |-> c.p, bal |-> c.bal, total |-> c.total,
            rdo |-> IF c.r = 1 /\ c.C = 2 /\ c.dual = 0 /\ c.cx >= 8 THEN 1 ELSE 0,
-           pol |-> 0 - 1, depth |-> 0, jit |-> 0, pts |-> 1]
+           pol |-> 0 - 1, depth |-> 0, jit |-> 0, pts |-> 1, xpts |-> 3, cmpts |-> 1]
 
 EvShapeOK(e) ==
   /\ Len(e) >= 1
@@ -41,7 +41,7 @@ EvShapeOK(e) ==
      \/ e[1] = 7 /\ Len(e) = 10
 
 InDomain(c) ==
-  /\ c.broken = 0
+  /\ c.broken = 0 /\ c.err0 \in 0..1
   /\ c.r \in 0..1 /\ c.C \in 1..2 /\ c.LM \in 0..Tab.maxlm /\ c.st >= 0 /\ c.st < c.en /\ c.en <= NB
   /\ c.cb >= c.st /\ c.cb <= c.en /\ c.dual \in 0..1 /\ c.inten >= 0 /\ c.inten <= NB /\ c.spread \in 0..3
   /\ Len(c.tf) = NB /\ Len(c.p) = NB /\ Len(c.masks) = 2 * NB
@@ -64,7 +64,9 @@ KeptSet(c, k) ==
   IF Len(c.bands[k].tr) = 1 THEN {1} ELSE {t \in 1..2 : c.bands[k].sg[t] = NextSig(c, k)}
 
 \* an event as both roles see it (stereo_itheta's arguments exist on the encoder side only, sign values are free)
-MirrorEv(e) == IF e[1] = 1 THEN <<1, e[2], e[3], e[4], e[5], e[6], e[7]>> ELSE e
+\* (the collapse mask alg_quant returns is unused by an encoder that does not resynthesise: not part of the lock-step clause)
+MirrorEv(e) == IF e[1] = 1 THEN <<1, e[2], e[3], e[4], e[5], e[6], e[7]>>
+               ELSE IF e[1] = 7 THEN <<7, e[2], e[3], e[4], e[5], e[6], e[7], e[8], e[10]>> ELSE e
 MirrorSeq(t) == [j \in 1..Len(t) |-> MirrorEv(t[j])]
 
 SameInputs(a, b) ==
@@ -84,9 +86,11 @@ MirrorNames(e) ==
             \E k \in 1..Len(e.enc) : SameInputs(e.dec[i], e.enc[k]) /\ SameLedger(e.dec[i], e.enc[k])
        THEN {} ELSE {"C02:lock-step: a decoder call went through a band ledger no encoder call of the packet produced"}
 
+\* (R2: asserted only for calls that start inside the packet with a clean coder - a crafted frame may start beyond it)
 BudgetNames(c) ==
-  (IF c.tellEnd <= c.stor * 64 THEN {} ELSE {"C02:budget: band quantisation ends beyond the packet"})
-  \cup (IF c.err = 0 THEN {} ELSE {"C02:the range coder's error flag is set after band quantisation"})
+  IF c.err0 # 0 \/ c.bands[1].tell > c.stor * 64 THEN {}
+  ELSE (IF c.tellEnd <= c.stor * 64 THEN {} ELSE {"C02:budget: band quantisation ends beyond the packet"})
+       \cup (IF c.err = 0 THEN {} ELSE {"C02:the range coder's error flag is set after band quantisation"})
 
 PktPropNames(e) ==
   IF \A i \in 1..Len(Calls(e)) : InDomain(Calls(e)[i])
@@ -121,7 +125,8 @@ Walk(c, f, k, g, names) ==
         (IF r.s.short THEN {"ledger needs more events than were recorded" \o At(i)} ELSE {})
         \cup (IF ~r.s.short /\ r.s.out = NormSeq(bd.tr[t]) THEN {} ELSE {"ledger events differ from the model's" \o At(i)})
         \cup {nm \o At(i) : nm \in r.s.bad}
-        \cup (IF r.s.tell <= f.total THEN {} ELSE {"band ends above total_bits" \o At(i)})
+        \* BandBits_mc!BudgetSafe with the estimate's jitter of 1 per coded item
+        \cup (IF r.s.tell <= Max(f.total, bd.tell) + r.s.nsym + r.s.nleaf THEN {} ELSE {"band ends above total_bits" \o At(i)})
       here == UNION {trialNames(t) : t \in 1..nt}
               \cup (IF nt = wantTrials THEN {} ELSE {"theta RDO trial structure" \o At(i)})
               \cup (IF ks # {} THEN {} ELSE {"coder state after the band matches neither trial" \o At(i)})
